@@ -37,6 +37,11 @@ OPS = [
     (r'\bSelf::Eq \| ', ''), (r' \| Self::Gt\b', ''), (r'\bSelf::Add \| ', ''),
     (r'as u8 as u64', 'as u64'), (r'as u16 as u64', 'as u64'), (r'as u32 as u64', 'as u64'),
     (r'\.ok\(\)\?', '.ok().or(Some(0))?'),
+    (r'\bio_close_reader\(', 'io_close_writer('), (r'\bstr_get_branch\(', 'str_eq_branch('), (r'\binteger_branch\(', 'integer_arithmetic('), (r'\bstdout\(', 'stderr('),
+    (r'\bfloat_to_string\(float,', 'float_to_string(zydeco_syntax::FloatType::Float64,'), (r'\| IntegerOperation::Mod => integer_arithmetic', '| IntegerOperation::Mod => integer_branch'),
+    (r'when_true \} else \{ when_false', 'when_false } else { when_true'), (r'\(when_none\.clone', '(when_some.clone'), (r'Literal::String\(first\)', 'Literal::String(second.clone())'),
+    (r'\.and_then\(char::from_u32\)', '.map(|c| char::from_u32(c).unwrap_or(\'?\'))'), (r'string\.scalar\(index\)', 'string.scalar(index + 1)'), (r'split_at_scalar\(index\)', 'split_at_scalar(index + 1)'),
+    (r'Self::one\(continuation, first\)', 'Self::one(continuation, second.clone())'), (r'=> Self::Closed', '=> Self::Other'), (r'ErrorKind::NotConnected', 'ErrorKind::NotFound'),
     (r'\*\$second', '*$first'), (r'\$first\.', '$second.'),
     (r'IntegerLiteral::\$variant\(result\)', 'IntegerLiteral::$variant(*$first)'),
 ]
@@ -127,7 +132,7 @@ def run_kani_unit(uname, max_mutants=60):
     allh = dict(ucfg['harnesses'])
     if ucfg.get('use_generated_harnesses', True):
         allh.update(getattr(kani._prepare, 'generated', {}) or {})
-    declared = [h for h, c in allh.items() if c.get('tier', 'quick') == 'quick']
+    declared = [h for h, c in allh.items() if c.get('tier', 'quick') == 'quick' and not (os.environ.get('MUT_SKIP_ROLES') and h.startswith('roles::'))]
     files = [os.path.join(dst, 'src', f) for f in os.listdir(os.path.join(dst, 'src')) if f.endswith('.rs')]
     muts = []
     for fp in files:
@@ -137,6 +142,9 @@ def run_kani_unit(uname, max_mutants=60):
             for m in mutants_for(text, regs):
                 m['file'] = fp
                 muts.append(m)
+    only = ucfg.get('mutate_functions')
+    if only:
+        muts = [m for m in muts if m['fn'] in only]
     muts = muts[:max_mutants]
     tdir = os.path.join(VERIF, 'build', 'kani-target', ucfg.get('target_key', uname))
     flags = ucfg.get('flags', [])
